@@ -3,6 +3,8 @@ package memconn
 import (
 	"fmt"
 	"io"
+	"runtime/debug"
+	"strings"
 	"testing"
 	"testing/synctest"
 	"time"
@@ -65,16 +67,32 @@ func Policies(fixed []int, rel []int) []Policy {
 	return out
 }
 
-// Bubble runs f in a fresh synctest bubble (virtual clock, no goroutine may be left behind). A panic of the
-// bubble - the code under test panicked, or everything is blocked for good - is returned as text.
+// Bubble runs f in a fresh synctest bubble (virtual clock, no goroutine may be left behind). A panic is
+// returned as text: of f itself (the harness calls the code under test from the bubble's root goroutine, so a
+// panicking Read or Write lands here - those bytes are not delivered - instead of killing the worker), or of
+// the bubble (everything is blocked for good, or goroutines are left when f returns).
 func Bubble(t *testing.T, f func()) (panicked string) {
 	defer func() {
 		if e := recover(); e != nil {
 			panicked = fmt.Sprint(e)
 		}
 	}()
-	synctest.Test(t, func(*testing.T) { f() })
-	return ""
+	synctest.Test(t, func(*testing.T) {
+		defer func() {
+			if e := recover(); e != nil {
+				st := string(debug.Stack())
+				if i := strings.Index(st, "panic("); i >= 0 {
+					st = st[i:]
+				}
+				if len(st) > 1200 {
+					st = st[:1200]
+				}
+				panicked = fmt.Sprintf("panic in the bubble's root goroutine: %v\n%s", e, st)
+			}
+		}()
+		f()
+	})
+	return panicked
 }
 
 // Transfer prepares a checked transfer over this link.
